@@ -73,16 +73,18 @@ RULES = [
     ('R7c', 'RoaringBitmap::from_sorted_iter(Some(x)).unwrap() / RoaringBitmap::from_iter([x]) -> RoaringBitmap::singleton_(x)',
      re.compile(r'RoaringBitmap::from_sorted_iter\(Some\(([\w.]+)\)\)\.unwrap\(\)|RoaringBitmap::from_iter\(\[([\w.]+)\]\)'),
      lambda m: 'RoaringBitmap::singleton_(%s)' % (m.group(1) or m.group(2))),
+    ('R7d', 'RoaringBitmap::from_sorted_iter(v).unwrap() -> RoaringBitmap::from_sorted_vec_unwrap_(v) (requires v strictly increasing)',
+     re.compile(r'RoaringBitmap::from_sorted_iter\((\w+)\)\.unwrap\(\)'), r'RoaringBitmap::from_sorted_vec_unwrap_(\1)'),
     ('R7b', 'X.map(Some) -> X.map_some_()', re.compile(r'\.map\(Some\)'), '.map_some_()'),
     # (R2 retired: heed's remap_* type-state is modelled natively by DatabaseG<DC: DataCodec>)
     ('R2', 'NodeCodec<D> -> NodeCodec (codec marker of the uninterpreted metric)', re.compile(r'\bNodeCodec<(?:D|ND)>'), 'NodeCodec'),
     # R3: Cow is value-transparent
     ('R3a', 'Cow::Owned(e) -> e', re.compile(r'\bCow::Owned\('), 'cow_owned('),
-    ('R3b', 'Cow::Borrowed(&e) -> e.clone()', re.compile(r'\bCow::Borrowed\(&'), 'cow_borrowed(&'),
+    ('R3b', 'Cow::Borrowed(e) -> cow_borrowed(e) (= e.clone())', re.compile(r'\bCow::Borrowed\('), 'cow_borrowed('),
     ('R3c', '.into_owned() dropped', re.compile(r'\.into_owned\(\)'), ''),
     # R4: operator sugar on bitmaps
-    ('R4a', 'a -= b; -> a.sub_assign_(b);', re.compile(r'(?m)^([ \t]*)(\w+) -= (&?\w+);'), r'\1\2.sub_assign_(\3);'),
-    ('R4b', 'a |= b; -> a.or_assign_(b);', re.compile(r'(?m)^([ \t]*)(\w+) \|= (&?\w+);'), r'\1\2.or_assign_(\3);'),
+    ('R4a', 'a -= b; -> a.sub_assign_(b);', re.compile(r'(?m)^([ \t]*)(\w+) -= (&?[A-Za-z_]\w*);'), r'\1\2.sub_assign_(\3);'),
+    ('R4b', 'a |= b; -> a.or_assign_(b);', re.compile(r'(?m)^([ \t]*)(\w+) \|= (&?[A-Za-z_]\w*);'), r'\1\2.or_assign_(\3);'),
     ('R4c', '&a | &b -> bitor_(&a, &b)', re.compile(r'&(\w+) \| &(\w+)'), r'bitor_(&\1, &\2)'),
     ('R4d', '&a & &b -> bitand_(&a, &b)', re.compile(r'&(\w+) & &(\w+)'), r'bitand_(&\1, &\2)'),
     ('R12', 'ghost-state threading for the id generator: X.concurrent_node_ids.next() -> X.concurrent_node_ids.next_g_(tmp_nodes) (ids returned before are recorded in the TmpNodes in scope)',
@@ -164,6 +166,30 @@ def rule_r6b(text):
         n += 1
 
 
+R6D_DESC = ('R6d', '`let [mut] X = loop { .. break E; .. };` -> `let X__brk; loop { .. { X__brk = E; break; } .. } let [mut] X = X__brk;` '
+            '(Verus has no break-with-value; definitional)')
+
+
+def rule_r6d(text):
+    n = 0
+    while True:
+        m2 = rustlex.mask(text)
+        m = re.search(r'let\s+(mut\s+)?(\w+)\s*=\s*loop\s*\{', m2)
+        if not m:
+            return text, n
+        ob = m.end() - 1
+        cb = rustlex.match_close(m2, ob)
+        semi = m2.find(';', cb)
+        name = m.group(2)
+        body = text[ob + 1:cb]
+        body2 = re.sub(r'\bbreak\s+([^;{}]+);', lambda b: '{ %s__brk = %s; break; }' % (name, b.group(1).strip()), body)
+        ls = text.rfind('\n', 0, m.start()) + 1
+        indent = re.match(r'[ \t]*', text[ls:]).group(0)
+        new = 'let %s__brk;\n%sloop {%s}\n%slet %s%s = %s__brk;' % (name, indent, body2, indent, m.group(1) or '', name, name)
+        text = text[:m.start()] + new + text[semi + 1:]
+        n += 1
+
+
 def apply_rules(text, skip=()):
     fired = {}
     for rid, _desc, rx, rep in RULES:
@@ -172,6 +198,10 @@ def apply_rules(text, skip=()):
         text, n = rx.subn(rep, text)
         if n:
             fired[rid] = n
+    if 'R6d' not in skip:
+        text, n = rule_r6d(text)
+        if n:
+            fired['R6d'] = n
     if 'R6b' not in skip:
         text, n = rule_r6b(text)
         if n:
@@ -188,7 +218,7 @@ def apply_rules(text, skip=()):
 
 
 def rule_table():
-    return [(r[0], r[1]) for r in RULES] + [R6B_DESC, R9_DESC, (R6A[0], R6A[1])]
+    return [(r[0], r[1]) for r in RULES] + [R6D_DESC, R6B_DESC, R9_DESC, (R6A[0], R6A[1])]
 
 
 # ---------------------------------------------------------------------------------------------
